@@ -150,7 +150,9 @@ def neg(op, input, *args, **kwargs):
     if input.qtype.is_floating_point:
         # Neg is not supported for float8
         return op(input.dequantize(), *args, **kwargs)
-    out_data = op(input._data, *args, **kwargs)
+    # The lowest integer code has no positive counterpart: saturate it instead of letting its negation wrap around
+    data = torch.clamp(input._data, min=-torch.iinfo(input._data.dtype).max)
+    out_data = op(data, *args, **kwargs)
     return QBytesTensor(input.qtype, input.axis, input.size(), input.stride(), out_data, input._scale)
 
 
